@@ -130,8 +130,6 @@ theorem spacingResult_layoutW (l1 l2 : List (Kind × Nat)) (h : LayoutEqW false 
 
 /-! ### from token lists -/
 
-/-- the gap before a token is empty: no line break and no space -/
-def gapEmpty (t : FTok) : Bool := t.fmt.nl == 0 && t.fmt.sp == 0
 
 /-- two layouts of one token sequence: same kinds, a gap is empty in one iff it is empty in the other
     (how many spaces, whether there is a line break, and how far the next line is indented are free);
